@@ -133,6 +133,26 @@ Definition rt_default_int (k : N) (default_value : option string) : option Z :=
   | None => Some 0%Z
   end.
 
+(* filedesc.isGroupLike (internal/filedesc/desc.go): group kind; the lower-cased message name is the field's name;
+   the message is declared in the same FILE (same_file: Message().ParentFile() == ParentFile()) and in the same SCOPE
+   (same_scope: descriptor identity of Message().Parent() with ContainingMessage(), for an extension with Parent()) *)
+Definition rt_is_group_like (f : field) (nm : fnames) (same_file same_scope : bool) : bool :=
+  (rt_kind f =? TYPE_GROUP) && String.eqb (to_lower (n_msg_name nm)) (n_name nm) && same_file && same_scope.
+
+(* stringName.lazyInit: the text name. Extensions: the bracketed full name (MessageSet extensions, which
+   protodesc.NewFile rejects without the protolegacy build tag, are outside the model) *)
+Definition rt_text_name (f : field) (nm : fnames) (same_file same_scope : bool) : string :=
+  if f_is_ext f then ("[" ++ n_full nm ++ "]")%string
+  else if rt_is_group_like f nm same_file same_scope then n_msg_name nm
+  else n_name nm.
+
+(* Full names identify declaration scopes: the message type is declared in the field's own scope (same file, same
+   parent descriptor) exactly when the two parent NAMES are equal. Holds for every non-extension field of an accepted
+   file, because a full name is declared once in a link (a package that is also a message is rejected). A file-level
+   extension and a top-level message of another file of the same package have equal parent names without this. *)
+Definition scopes_by_name (f : field) (nm : fnames) (same_file same_scope : bool) : bool :=
+  f_is_ext f || Bool.eqb (same_file && same_scope) (String.eqb (n_msg_parent nm) (n_parent nm)).
+
 (* ------------------------------------------------------------------------------------------------
    What the compiler enforces on every file it accepts, whatever the input form (linker/validate.go,
    options lifetimes, parser): the hypotheses of the agreement theorems.
